@@ -1,12 +1,16 @@
 ----------------------------- MODULE MC_Limits ------------------------------
 EXTENDS Limits, Json, Sequences
-CONSTANT Pick(_)
+CONSTANTS Pick(_),   \* PickAll: every choice (exhaustive); PickOne: one random choice (simulation)
+          Ops        \* operation types of this configuration
 PickAll(S) == S
 PickOne(S) == {RandomElement(S)}
-Next == \/ \E r \in Pick(Reqs) : GetArrive(r)
-        \/ \E r \in Pick(IF inflight = {} THEN Reqs ELSE inflight) : GetFinish(r)
-        \/ GetQuick
-        \/ Post
+Min(S) == CHOOSE x \in S : \A y \in S : x <= y
+\* parked requests are interchangeable: they arrive in the order of their numbers
+Next == \/ "get" \in Ops /\ Unused # {} /\ GetArrive(Min(Unused))
+        \/ "finish" \in Ops /\ \E r \in Pick(IF running = {} THEN Reqs ELSE running) : GetFinish(r)
+        \/ "getquick" \in Ops /\ GetQuick
+        \/ "post" \in Ops /\ Post
+        \/ "tick" \in Ops /\ Tick
 Spec == Init /\ [][Next]_vars
-View == <<inflight, served>>
+View == <<running, waiting, age, answered>>
 =============================================================================
